@@ -8,7 +8,9 @@
    that TLC can compare against its own arithmetic.                            *)
 EXTENDS Integers, Sequences, TLC
 
-Base == 32768
+LimbBits == 15                      \* a model may override this (cfg: LimbBits <- 2)
+LimbPow == <<1, 2, 4, 8, 16, 32, 64, 128, 256, 512, 1024, 2048, 4096, 8192, 16384, 32768>>
+Base == LimbPow[LimbBits + 1]
 
 IsNat(a) == /\ \A i \in 1..Len(a) : a[i] \in 0..(Base - 1)
             /\ (Len(a) > 0 => a[Len(a)] # 0)
@@ -68,10 +70,10 @@ DivModN(a, b) ==
        IN IF LeN(b, h.r) THEN [q |-> AddN(q2, <<1>>), r |-> SubN(h.r, b)]
                          ELSE [q |-> q2, r |-> h.r]
 
-(* 2^k as naturals, k = 0..64 *)
-RECURSIVE Pow2Nr(_)
-Pow2Nr(k) == IF k = 0 THEN <<1>> ELSE LET p == Pow2Nr(k - 1) IN AddN(p, p)
-Pow2N == [k \in 0..64 |-> Pow2Nr(k)] @@ <<>>    \* tabulated once (see FixedWidth.Tabulated)
+(* 2^k as naturals, k = 0..64: a single bit in limb k \div LimbBits (no RECURSIVE operator, so
+   that TLC pre-computes the table; checked against doubling in IntMathWideLaws.PowLaws) *)
+Pow2N == [k \in 0..64 |-> [i \in 1..((k \div LimbBits) + 1) |->
+                            IF i = (k \div LimbBits) + 1 THEN LimbPow[(k % LimbBits) + 1] ELSE 0]] @@ <<>>
 
 (* (a & b) /= 0 : some bit set in both.  Limbs are below 2^15. *)
 RECURSIVE LimbAndNZ(_, _)
